@@ -212,12 +212,22 @@ from `Options`.  The string entry points (`from_str_with_options_impl`,
 `with_deserializer_from_str_with_options`) run the same value / `peek` / `finish` protocol as the reader
 ones; their error cell is never set. -/
 
-/-- `std::str::from_utf8` on the whole slice (`from_slice_with_options`): `none` = `InvalidUtf8Input` -/
-def utf8Validate (bytes : List Nat) : Option (List Char) :=
-  if bytes.isEmpty then some []
-  else
-    let r := collectAll { reader := [.data bytes] }
-    if r.2.cell.isNone then some r.1 else none
+/-- `std::str::from_utf8` on the whole slice (`from_slice_with_options`): `none` = `InvalidUtf8Input`.
+Greedy validation with the same leading-byte / well-formedness tables as the reader glue. -/
+def utf8ValidateF : Nat → List Nat → Option (List Char)
+  | 0, _ => none
+  | _ + 1, [] => some []
+  | fuel + 1, b :: t =>
+    match needed b with
+    | none => none
+    | some n =>
+      if t.length < n - 1 then none
+      else
+        match decode1 (b :: t.take (n - 1)) with
+        | none => none
+        | some c => (utf8ValidateF fuel (t.drop (n - 1))).map (c :: ·)
+
+def utf8Validate (bytes : List Nat) : Option (List Char) := utf8ValidateF (bytes.length + 1) bytes
 
 structure Pipeline where
   scan : List Char → List RawItem
@@ -245,23 +255,41 @@ def Pipeline.fromSlice (p : Pipeline) (bytes : List Nat) : EntryRes :=
   | some t => p.fromStr t
 
 /-- `from_reader[_with_options]`, `with_deserializer_from_reader[_with_options]` over a fault-free reader
-delivering well-formed UTF-8: `ChunkedChars` re-assembles the characters, the decoder in front of it has
-removed one BOM (`readerPathText`) -/
+delivering well-formed UTF-8: `ChunkedChars` re-assembles the characters (and terminates an unterminated
+final `%` line, fix bfd6267), the decoder in front of it has removed one BOM (`readerPathText`) -/
 def Pipeline.fromReaderEntry (p : Pipeline) (sched : Sched) : EntryRes :=
   let r := collectAll { reader := sched }
   .res (fromReader p.client p.fuel (p.mkSrc (p.scan (readerPathText r.1)))).1
 
 /-! ## borrowing (`deserialize_str`) -/
 
-/-- what `deserialize_str` hands to the visitor for a non-null scalar: `visit_borrowed_str` exactly when the
-parser's `Cow` is `Borrowed`, otherwise `visit_string` -/
+/-- what a visitor receives for a string scalar -/
 inductive StrVisit where
   | borrowed (t : List Char)
   | owned (t : List Char)
 deriving Repr, DecidableEq
 
-def deserializeStr (parserBorrowed : Bool) (t : List Char) : StrVisit :=
-  if parserBorrowed then .borrowed t else .owned t
+/-- what the scalar's tag does to a string target (`deserialize_string`): the text is taken as it is, it is
+replaced by another text (`!!binary`: the decoded bytes), or the tag refuses strings
+(`TaggedScalarCannotDeserializeIntoString`, `NullIntoString`, …) -/
+inductive TagEffect where
+  | keep
+  | transformed (t' : List Char)
+  | refused
+deriving Repr, DecidableEq
+
+/-- `deserialize_string` for a scalar: `visit_borrowed_str` exactly when the tag keeps the text and the
+parser's `Cow` is `Borrowed`, `visit_string` otherwise, or the tag's error (`none`) -/
+def deserializeString (eff : TagEffect) (parserBorrowed : Bool) (t : List Char) : Option StrVisit :=
+  match eff with
+  | .refused => none
+  | .transformed t' => some (.owned t')
+  | .keep => some (if parserBorrowed then .borrowed t else .owned t)
+
+/-- `deserialize_str` (fix 7f69297): the same null / tag / `!!binary` handling as `deserialize_string`; only
+the visitor's refusal of an owned string is reworded (`cannot_borrow_transformed`) -/
+def deserializeStr (eff : TagEffect) (parserBorrowed : Bool) (t : List Char) : Option StrVisit :=
+  deserializeString eff parserBorrowed t
 
 /-- Serde's visitor for `&'de str` accepts only `visit_borrowed_str` (the refusal becomes
 `cannot_borrow_transformed`) -/
